@@ -255,6 +255,9 @@ func zzvRaw(method, target string, pres string, addQuery bool) string {
 		hdr = "Authorization: Bearer not-" + zzvToken + "\r\n"
 		q = append(q, "token="+zzvToken)
 	}
+	if strings.Contains(target, "pprof/profile") || strings.Contains(target, "pprof/trace") {
+		q = append(q, "seconds=1") // keep an authorised CPU profile / trace short
+	}
 	if len(q) > 0 {
 		if strings.Contains(target, "?") {
 			target += "&" + strings.Join(q, "&")
@@ -318,7 +321,7 @@ func (z *zzvSrv) serve(raw string) zzvResp {
 			return zzvResp{err: err.Error()}
 		}
 		defer c.Close()
-		c.SetDeadline(time.Now().Add(5 * time.Second))
+		c.SetDeadline(time.Now().Add(20 * time.Second))
 		if _, err := c.Write([]byte(raw)); err != nil {
 			return zzvResp{err: err.Error()}
 		}
